@@ -1455,6 +1455,13 @@ class _IndexGOMixin:
         Args:
             values: can be a generator.
         '''
+        # validate every value before appending any: a rejected call must leave the index unchanged
+        values = tuple(values)
+        seen = set()
+        for value in values:
+            if self.__contains__(value) or value in seen: #type: ignore
+                raise KeyError(f'duplicate key append attempted: {value}')
+            seen.add(value)
         for value in values:
             self.append(value)
 
